@@ -534,6 +534,120 @@ def checked_rule(ctx, facts, cfg):
     if n < 3:
         ctx.violation(rid, '<floor>', 'decimal folds', 'found %d of decimal_u8/u16/u32' % n, kind='below-floor')
 
+TOKEN_SCANNERS = ('chomp::parsers::take_while1', 'chomp::parsers::take_while', 'chomp::parsers::take_till')
+SEPARATOR = 'synth::parser::is_horizontal_whitespace'
+# byte classes of the parser-combinator crate (its documentation; MIR of non-generic extern functions is not exported)
+EXTERN_CLASSES = {
+    'chomp::ascii::is_digit': lambda c: 0x30 <= c <= 0x39,
+    'chomp::ascii::is_alpha': lambda c: 0x41 <= c <= 0x5a or 0x61 <= c <= 0x7a,
+    'chomp::ascii::is_alphanumeric': lambda c: 0x30 <= c <= 0x39 or 0x41 <= c <= 0x5a or 0x61 <= c <= 0x7a,
+    'chomp::ascii::is_whitespace': lambda c: c in (0x09, 0x0a, 0x0b, 0x0c, 0x0d, 0x20),
+    'chomp::ascii::is_horizontal_space': lambda c: c in (0x09, 0x20),
+    'chomp::ascii::is_end_of_line': lambda c: c in (0x0a, 0x0d),
+}
+STD_CLASSES = {
+    '<impl u8>::is_ascii_hexdigit': lambda c: chr(c) in '0123456789abcdefABCDEF',
+    '<impl u8>::is_ascii_digit': lambda c: 0x30 <= c <= 0x39,
+    '<impl u8>::is_ascii_alphabetic': lambda c: 0x41 <= c <= 0x5a or 0x61 <= c <= 0x7a,
+    '<impl u8>::is_ascii_alphanumeric': lambda c: 0x30 <= c <= 0x39 or 0x41 <= c <= 0x5a or 0x61 <= c <= 0x7a,
+    '<impl u8>::is_ascii_whitespace': lambda c: c in (0x09, 0x0a, 0x0c, 0x0d, 0x20),
+}
+
+
+def _class_models():
+    m = {}
+    for table in (EXTERN_CLASSES, STD_CLASSES):
+        for name, fn in table.items():
+            m[name] = (lambda fn: lambda args, mm: bf_from_fn([args[0]], fn))(fn)
+    return m
+
+
+def _accepts(facts, pred, byte):
+    """Does the byte predicate (function item or closure, from the call's argument) accept `byte`?  True / False / None (undecided)."""
+    c = BV.const(byte, 8)
+    if pred[0] == 'fn' and pred[1] in EXTERN_CLASSES:
+        return bool(EXTERN_CLASSES[pred[1]](byte))
+    key = pred[1]
+    if key not in facts.fns:
+        return None
+    try:
+        args = [c] if pred[0] == 'fn' else ['CLOSURE', c]
+        rs = Interp(facts.fns, _class_models()).outcomes(key, args)
+    except Exception:
+        return None
+    # a stateful closure (captured counters) is explored along every branch its state could take: the verdict must not depend on it
+    vals = set()
+    for r in rs:
+        if r is TOP or r is None or getattr(r, 'vs', None) != ():
+            return None
+        vals.add(bool(r.tt & 1))
+    return vals.pop() if len(vals) == 1 else None
+
+
+def separator_rule(ctx, facts, cfg):
+    """C13.e: no multi-byte token of the record-text grammar can contain a field separator.
+
+    Fields are told apart by horizontal whitespace only; a token scanner whose byte predicate accepts a
+    separator byte swallows the fields that follow it, so a record with surplus fields is no longer
+    rejected (and a missing one can be taken from the next).  Every predicate handed to
+    take_while / take_while1 (take_till: the complement) below RR::from_string is evaluated on every byte
+    that `is_horizontal_whitespace` accepts."""
+    rid = 'C13.e'
+    if SEPARATOR not in facts.fns:
+        ctx.missing(rid, SEPARATOR)
+        return
+    seps = [b for b in range(256) if _accepts(facts, ('fn', SEPARATOR), b)]
+    undec = [b for b in range(256) if _accepts(facts, ('fn', SEPARATOR), b) is None]
+    if undec or not seps:
+        ctx.violation(rid, SEPARATOR, 'separator set', 'cannot evaluate the separator class (%d bytes undecided, %d accepted)' % (len(undec), len(seps)), kind='undecided', config=cfg)
+        return
+    seen, ext, ind, parent = facts.reach([ROOT])
+    n = 0
+    for k in sorted(seen):
+        f = facts.fns.get(k)
+        if f is None:
+            continue
+        for bi, b in enumerate(f['blocks']):
+            t = b.get('term') or {}
+            if t.get('k') != 'call':
+                continue
+            cal = t.get('callee') or {}
+            path = cal.get('resolved') or cal.get('path')
+            if path not in TOKEN_SCANNERS:
+                continue
+            args = t.get('args') or []
+            pred = None
+            if len(args) >= 2:
+                a = args[1]
+                ty = (a.get('ty') or (a.get('place') or {}).get('ty') or {})
+                if ty.get('k') == 'fndef':
+                    pred = ('fn', ty.get('fn'))
+                elif ty.get('k') == 'closure':
+                    pred = ('closure', ty.get('def'))
+            n += 1
+            name = '%s: %s(%s)' % (k, path.rsplit('::', 1)[-1], pred[1] if pred else '?')
+            if pred is None:
+                ctx.violation(rid, k, 'token predicate', 'the byte predicate handed to %s in %s is neither a function item nor a closure' % (path, k), kind='undecided', config=cfg)
+                continue
+            want = path.endswith('take_till')
+            bad = []
+            for s in seps:
+                r = _accepts(facts, pred, s)
+                if r is None:
+                    bad = None
+                    break
+                if r != want:
+                    bad.append(s)
+            if bad is None:
+                ctx.violation(rid, k, 'token predicate ' + str(pred[1]), 'cannot evaluate predicate %s on the separator bytes' % pred[1], kind='undecided', config=cfg)
+            elif bad:
+                ctx.violation(rid, k, 'separator inside token: ' + str(pred[1]).rsplit('::', 2)[-1],
+                              'the token scanned in %s by %s accepts the field separator byte(s) %s: the fields after it are swallowed instead of being counted' % (k, pred[1], ', '.join('0x%02x' % x for x in bad)), config=cfg)
+            else:
+                ctx.instance(rid, name + ' rejects %s [%s]' % (', '.join('0x%02x' % x for x in seps), cfg))
+    if n < 7:
+        ctx.violation(rid, '<floor>', 'token scanners', 'only %d take_while/take_while1 sites below RR::from_string, expected 7' % n, kind='below-floor', config=cfg)
+
 
 def run(ctx):
     for cfg in ctx.configs():
@@ -544,6 +658,7 @@ def run(ctx):
         layout_rule(ctx, facts, cfg)
         dispatch_rule(ctx, facts, cfg)
         checked_rule(ctx, facts, cfg)
+        separator_rule(ctx, facts, cfg)
     ctx.assume('contract `lengths`: byte strings whose lengths are added for a capacity are cut from one input string (or are live allocations), so their sum is <= isize::MAX')
     ctx.assume('contract `counter`: a usize counter incremented by one per input byte cannot reach usize::MAX')
     ctx.assume('contract `digit`: chomp take_while1(p) yields only bytes satisfying p; chomp::ascii::digit yields a byte in 0..9')
